@@ -78,6 +78,12 @@ pub const CURATED: &[&str] = &[
     "4k3/pppppppp/8/PPPPPPPP/pppppppp/8/PPPPPPPP/4K3 b - - 0 1",
     "4k3/1p1p1p1p/8/P1P1P1P1/p1p1p1p1/8/1P1P1P1P/4K3 w - - 0 1",
     "8/8/3k4/8/2pPp3/8/8/4K3 b - d3 0 1",
+    // the two known positions with 218 legal moves, and walls of promoting pawns (14 pawn moves = 56 + successors)
+    "R6R/3Q4/1Q4Q1/4Q3/2Q4Q/Q4Q2/pp1Q4/kBNN1KB1 w - - 0 1",
+    "3Q4/1Q4Q1/4Q3/2Q4R/Q4Q2/3Q4/1Q4Rp/1K1BBNNk w - - 0 1",
+    "nnnnnnnn/PPPPPPPP/8/8/8/8/8/K6k w - - 0 1",
+    "k6K/8/8/8/8/8/pppppppp/NNNNNNNN b - - 0 1",
+    "1n1n1b2/P1P1P2P/5K1k/8/6P1/8/8/8 w - - 0 1",
     // heavy pieces, kings on the rim
     "k7/8/8/4QQQ1/8/8/8/7K w - - 0 1",
     "7k/6q1/8/8/8/8/1Q6/K7 w - - 0 1",
@@ -398,12 +404,14 @@ pub fn template_en_passant(rng: &mut Rng) -> Pos {
 pub fn template_promotion(rng: &mut Rng) -> Pos {
     loop {
         let mut p = Pos::empty();
-        let npawns = 1 + rng.below(3);
+        // now and then a wall: four to eight pawns, most of them with something to capture
+        let wall = rng.chance(1, 6);
+        let npawns = if wall { 4 + rng.below(5) } else { 1 + rng.below(3) };
         for _ in 0..npawns {
             let f = rng.below(8) as i32;
             p.sq[sq(f, 6) as usize] = PAWN;
         }
-        for _ in 0..rng.below(5) {
+        for _ in 0..if wall { 4 + rng.below(5) } else { rng.below(5) } {
             let f = rng.below(8) as i32;
             if p.sq[sq(f, 7) as usize] == 0 {
                 p.sq[sq(f, 7) as usize] = *rng.pick(&[ROOK, KNIGHT, BISHOP, QUEEN, ROOK]) | BLACK;
@@ -617,6 +625,81 @@ pub fn forced_special_pool() -> &'static Vec<ForcedSpecial> {
     })
 }
 
+/// (c) extreme but legal material: one side with a promoted army (up to nine queens, up to ten
+/// rooks / bishops / knights, never more than fifteen men besides the king and never more
+/// promoted pieces than pawns are missing), the other with a king and a few men, on an open
+/// board: move lists of 100-218 entries, dozens of captures, pieces of one kind beyond any
+/// "reasonable" fixed-size table.
+pub fn template_heavy(rng: &mut Rng) -> Pos {
+    loop {
+        let mut p = Pos::empty();
+        let wk = rng.below(64) as u8;
+        let bk = rng.below(64) as u8;
+        if wk == bk || ((file_of(wk) - file_of(bk)).abs() <= 1 && (rank_of(wk) - rank_of(bk)).abs() <= 1) {
+            continue;
+        }
+        p.sq[wk as usize] = KING;
+        p.sq[bk as usize] = KING | BLACK;
+        // white: originals (Q, 2R, 2B, 2N) plus up to eight promoted pieces
+        let (mut q, mut r, mut b, mut n) = (1u32, 2u32, 2u32, 2u32);
+        let promoted = 2 + rng.below(7) as u32;
+        let favourite = rng.below(5);
+        for _ in 0..promoted {
+            match if rng.chance(2, 3) { favourite } else { rng.below(4) } {
+                0 | 4 => q += 1,
+                1 => r += 1,
+                2 => b += 1,
+                _ => n += 1,
+            }
+        }
+        // sometimes fewer of the other kinds (they were captured)
+        let drop = |x: u32, rng: &mut Rng| if rng.chance(1, 2) { rng.below(x as u64 + 1) as u32 } else { x };
+        if favourite != 0 && favourite != 4 {
+            q = drop(q, rng);
+        }
+        if favourite != 1 {
+            r = drop(r, rng);
+        }
+        if favourite != 2 {
+            b = drop(b, rng);
+        }
+        if favourite != 3 {
+            n = drop(n, rng);
+        }
+        let mut men = vec![];
+        men.extend(std::iter::repeat(QUEEN).take(q as usize));
+        men.extend(std::iter::repeat(ROOK).take(r as usize));
+        men.extend(std::iter::repeat(BISHOP).take(b as usize));
+        men.extend(std::iter::repeat(KNIGHT).take(n as usize));
+        let pawns_left = 8 - promoted;
+        for _ in 0..rng.below(pawns_left as u64 + 1) {
+            men.push(PAWN);
+        }
+        for pc in men {
+            for _ in 0..8 {
+                let s = rng.below(64) as u8;
+                if p.sq[s as usize] == 0 && !(pc == PAWN && (rank_of(s) == 0 || rank_of(s) == 7)) {
+                    p.sq[s as usize] = pc;
+                    break;
+                }
+            }
+        }
+        // black: a few men, often a pawn shield
+        for _ in 0..rng.below(6) {
+            let s = rng.below(64) as u8;
+            let pc = *rng.pick(&[PAWN, PAWN, PAWN, KNIGHT, BISHOP, ROOK]);
+            if p.sq[s as usize] == 0 && !(pc == PAWN && (rank_of(s) == 0 || rank_of(s) == 7)) {
+                p.sq[s as usize] = pc | BLACK;
+            }
+        }
+        p.white_to_move = rng.chance(3, 4);
+        if !p.is_legal_position() {
+            continue;
+        }
+        return if rng.chance(1, 2) { mirror(&p) } else { p };
+    }
+}
+
 pub fn is_castle_lookalike(p: &Pos, m: Mv) -> bool {
     let k = kind(p.sq[m.from as usize]);
     let pairs = [(4u8, 6u8), (4, 2), (60, 62), (60, 58)];
@@ -744,7 +827,13 @@ fn rng_small(rng: &mut Rng, max_plies: usize) -> usize {
 
 /// The shared mix: a start position by source, extended by a short referee walk, then a game.
 pub fn gen_game(rng: &mut Rng, max_plies: usize) -> Game {
-    let src = rng.below(12);
+    let src = rng.below(13);
+    if src == 12 {
+        let start = template_heavy(rng);
+        let k = rng_small(rng, max_plies);
+        let moves = random_walk(rng, &start, k, Bias::Tactical);
+        return Game { start, moves, source: "tmpl-heavy" };
+    }
     if src == 10 {
         // pawn race: forced prefix (double step, promotion, promotion ...), then a walk
         let (start, mut moves) = template_pawn_race(rng);
